@@ -3,6 +3,9 @@
 #include <yaclib/fault/detail/fiber/fiber_base.hpp>
 
 #include <functional>
+#ifdef YACLIB_VERIF
+#  include <yaclib/fault/verif_hook.hpp>
+#endif
 
 namespace yaclib::detail::fiber {
 
@@ -15,6 +18,12 @@ class Fiber final : public FiberBase {
   // TODO(myannyax) add tests
   Fiber(Args&&... args) : _func(std::forward<Args>(args)...) {
     _context.Setup(_stack.GetAllocation(), Trampoline, this);
+#ifdef YACLIB_VERIF
+    if (::yaclib::verif::gHooks != nullptr && ::yaclib::verif::gHooks->on_fiber != nullptr) {
+      ::yaclib::verif::gHooks->on_fiber(::yaclib::verif::kStack, GetId(), 0, _stack.GetAllocation().start,
+                                        _stack.GetAllocation().size);
+    }
+#endif
   }
 
   static void Trampoline(void* arg) noexcept {
